@@ -302,6 +302,9 @@ class FuncInfo(object):
 #       `getattr(x, '<constant>')` -> `x.<constant>`  (table-driven dispatch
 #       and the if-chain it replaces read the same)
 #   C12 `a, b = X, Y` where Y does not read a (and so on)   ->  `a = X; b = Y`
+#   C13 a module-level name in CAPITALS bound once to a string literal (or a
+#       tuple of them) is replaced by the literal where it is read in this
+#       module (named protocol words vs. the literals they name)
 #   C6  `t = E` immediately followed by a statement in which t (bound once, read
 #       once in the function) is the first thing evaluated apart from plain
 #       name / attribute / constant loads                 ->  E substituted for t
@@ -835,7 +838,73 @@ def _unroll_table_loops(fn, class_consts):
     ast.fix_missing_locations(fn)
 
 
+def _string_literal(e):
+  """A string / bytes constant or a non-empty tuple of them."""
+  if isinstance(e, ast.Constant):
+    return isinstance(e.value, (str, bytes))
+  if isinstance(e, ast.Tuple):
+    return bool(e.elts) and all(_string_literal(x) for x in e.elts)
+  return False
+
+
+def _propagate_module_constants(tree):
+  consts = {}
+  counts = {}
+  for st in tree.body:
+    if isinstance(st, ast.Assign) and len(st.targets) == 1 and isinstance(
+        st.targets[0], ast.Name):
+      counts[st.targets[0].id] = counts.get(st.targets[0].id, 0) + 1
+      nm = st.targets[0].id
+      if nm.strip('_').isupper() and nm.strip('_') and _string_literal(
+          st.value):
+        consts[nm] = st.value
+  for n in ast.walk(tree):
+    if isinstance(n, ast.Name) and isinstance(n.ctx, (ast.Store, ast.Del)) and \
+        n.id in consts and counts.get(n.id, 0) >= 1:
+      counts[n.id] = counts.get(n.id, 0) + 0
+    if isinstance(n, (ast.Global,)):
+      for x in n.names:
+        consts.pop(x, None)
+  consts = {k: v for k, v in consts.items() if counts.get(k, 0) == 1}
+  if not consts:
+    return
+  # names rebound locally (parameters, locals) keep their local meaning
+  def rebinds(fn):
+    out = set()
+    for x in ast.walk(fn):
+      if isinstance(x, ast.arg):
+        out.add(x.arg)
+      elif isinstance(x, ast.Name) and isinstance(x.ctx, (ast.Store, ast.Del)):
+        out.add(x.id)
+    return out
+
+  def subst(node, shadow):
+    for field, val in ast.iter_fields(node):
+      items = val if isinstance(val, list) else [val]
+      for i, x in enumerate(items):
+        if isinstance(x, ast.Name) and isinstance(x.ctx, ast.Load) and \
+            x.id in consts and x.id not in shadow:
+          new = ast.copy_location(copy.deepcopy(consts[x.id]), x)
+          if isinstance(val, list):
+            val[i] = new
+          else:
+            setattr(node, field, new)
+        elif isinstance(x, (ast.FunctionDef, ast.AsyncFunctionDef, ast.Lambda)):
+          subst(x, shadow | rebinds(x))
+        elif isinstance(x, ast.AST):
+          subst(x, shadow)
+  for st in tree.body:
+    if isinstance(st, ast.Assign) and len(st.targets) == 1 and isinstance(
+        st.targets[0], ast.Name) and st.targets[0].id in consts:
+      continue
+    if isinstance(st, (ast.FunctionDef, ast.AsyncFunctionDef)):
+      subst(st, rebinds(st))
+    else:
+      subst(st, set())
+
+
 def canonicalise(tree):
+  _propagate_module_constants(tree)
   _fold_getattr(tree)
   for c in ast.walk(tree):
     if isinstance(c, ast.ClassDef):
